@@ -2,7 +2,7 @@
 Require Extraction.
 Require Import ExtrOcamlBasic.
 From Coq Require Import ZArith NArith.
-From Astisub Require Import Kit.Base Kit.Str Kit.Float64 Kit.Scan Kit.Html Model.Ops Model.Dur Model.Lin Model.Srt Model.Files Model.Vtt Model.Conv Model.ConvOps Model.Plain Model.PlainOps Model.Cli Model.TtxRow Model.Ttx Model.TtxSpec Model.Ssa Kit.Float64x Kit.Xml Model.Ttml Kit.XmlParse Kit.Utf8 Model.Stl Model.PlainSsa Model.SrtC Model.VttC Model.PlainStl Kit.IOW Model.StlIO Kit.Chk Model.StlC Model.PlainTtml Model.TtmlOpt Model.PlainTtx Kit.XmlParse2 Proofs.TtmlRender Proofs.TtmlRenderEx Model.TtxHam Kit.XmlEsc Model.TtmlGo Model.ConvTtml Model.TtmlC Model.SsaC Model.ConvStl Model.ConvStlVtt Model.ConvStlTtml.
+From Astisub Require Import Kit.Base Kit.Str Kit.Float64 Kit.Scan Kit.Html Model.Ops Model.Dur Model.Lin Model.Srt Model.Files Model.Vtt Model.Conv Model.ConvOps Model.Plain Model.PlainOps Model.Cli Model.TtxRow Model.Ttx Model.TtxSpec Model.Ssa Kit.Float64x Kit.Xml Model.Ttml Kit.XmlParse Kit.Utf8 Model.Stl Model.PlainSsa Model.SrtC Model.VttC Model.PlainStl Kit.IOW Model.StlIO Kit.Chk Model.StlC Model.PlainTtml Model.TtmlOpt Model.PlainTtx Kit.XmlParse2 Proofs.TtmlRender Proofs.TtmlRenderEx Model.TtxHam Kit.XmlEsc Model.TtmlGo Model.ConvTtml Model.TtmlC Model.SsaC Model.ConvStl Model.ConvStlVtt Model.ConvStlTtml Model.ConvTtx.
 Extraction "model.ml"
   Z.add Z.mul Z.opp Z.div Z.modulo Z.of_N Z.to_N N.add N.mul
   order merge add_dur force_duration fragment unfragment optimize remove_styling item_text
@@ -22,6 +22,7 @@ Extraction "model.ml"
   mux_ok mux_ok_auto cues_of events pes_ok pes_units tmin tmax zero_or
   inst_mux_ok is_our_header body_ok rowspec_ok is_our_row benign neutral_unit dead_ok is_terminator unselected_ok row_cells
   ttx_enc ttx_dec ttx_plain_okb desig_final desig_ok ham2418_word ham2418_dec_word
+  convert_ttx_srt convert_ttx_vtt convert_ttx_ssa convert_ttx_stl convert_ttx_ttml
   read_ssa read_ssa_lines write_ssa write_ssa_chunks style_keys style_from_string style_string event_from_string event_string
   find_sattr sattrs_all find_eattr eattrs_all parse_color format_color parse_bool parse_float3 format_float3 format_float_short
   parse_time text_lines item_text_ssa item_name event_item event_of_item info_parse info_bytes segments
